@@ -146,6 +146,8 @@ func (t *v2T) add(c *v2C, d v2Doc) {
 		"docs": []int{d0, len(c.c.docs)}, "dict": []int{w0, len(c.c.dict.words)}})
 }
 
+func mathFloat64bits(f float64) uint64 { return math.Float64bits(f) }
+
 func v2Bits(f float64) string { return fmt.Sprintf("%016x", math.Float64bits(f)) }
 
 // ranks maps each float to its rank among the sorted distinct values.
@@ -338,7 +340,7 @@ func (t *v2T) pair(a, b *v2Res, kind string, dtok int, lmap []int, nocopy bool, 
 		notices = []int{}
 	}
 	ev := map[string]interface{}{"ev": "pair", "a": a.In, "b": b.In, "kind": kind, "dtok": dtok, "lmap": lmap, "nocopy": nocopy, "notices": notices,
-		"nolines": false, "align": ""}
+		"nolines": false, "align": "", "alignclass": ""}
 	for k, v := range extra {
 		ev[k] = v
 	}
